@@ -19,6 +19,7 @@ func extractMore(f *Facts) {
 	extractStubInterface(f)
 	extractProcess(f)
 	extractPanicSkeleton(f)
+	extractEnvFacts(f)
 }
 
 // extractStubInterface parses shim.ChaincodeStubInterface from the module cache copy named in go.mod.
